@@ -310,3 +310,56 @@ def finding_key(script, res):
         if dots:
             return "c_ne_s:node:dot-in-name"
     return "%s:%s" % (res["kind"], op[1] if len(op) > 1 else "?")
+
+
+class _XX:
+    """second part: mpt::config_parser (mpt++/parse.cpp) through harness/drvxx_parse.cpp: texts of the reference
+    writer are opened, read, reset and read again on ONE parser object; every read from the start of a text has
+    to deliver exactly the forest"""
+    id = "C09"
+    area = "parse"
+    driver = "drvxx_parse"
+    cxx = True
+    fixed_lines = 1
+    link_extra = ["-fno-sanitize=vptr"]
+
+    @staticmethod
+    def corpus(chk):
+        return [(n, s) for n, s in gen.corpus(id) if s and s[0].startswith("x ")]
+
+    @staticmethod
+    def scripts(tier, seed, scale=1):
+        out = []
+        r = gen.rng(id, tier, seed, "xx")
+        forests = []
+        for n in range(1, 4 if tier == "quick" else 5):
+            for sh in shapes(n):
+                for np_ in NAMEPATS[:2]:
+                    for vp in VALPATS[:3]:
+                        forests.append(forest_text(label(sh, np_, vp, [0])))
+        forests = sorted(set(forests))
+        for style in STYLES:
+            reqs = [(style, r.randrange(5), f) for f in forests]
+            res = render_all(reqs)
+            items = [(d, f, h) for (s, d, f), (h, adm) in zip(reqs, res) if adm and h and len(h) < 4000]
+            desc = STYLES[style]
+            for i in range(0, len(items) - 1, 2):
+                (d1, f1, h1), (d2, f2, h2) = items[i], items[i + 1]
+                lines = ["x new 255 255", "x fmt " + ("null" if desc is None else hx(desc)),
+                         "x render %s %d %s %s" % (style, d1, f1, h1), "x open", "x read",
+                         "x reset", "x read",
+                         "x render %s %d %s %s" % (style, d2, f2, h2), "x reset", "x read",
+                         "x reset", "x read log",
+                         "x render %s %d %s %s" % (style, d1, f1, h1), "x open", "x read", "x end"]
+                out.append(("xx:%s:%d" % (style, i), lines))
+        return out
+
+    @staticmethod
+    def nontrivial(script, c_lines):
+        return nontrivial(script, c_lines)
+
+    tally = staticmethod(lambda chk, script, c_lines: None)
+    finding_key = staticmethod(lambda script, res: finding_key(script, res))
+
+
+extra_parts = [_XX]
